@@ -14,6 +14,7 @@ import (
 	"fmt"
 	"math/rand"
 	"os"
+	"regexp"
 	"sort"
 	"strings"
 	"sync"
@@ -99,24 +100,57 @@ type c15Compiled struct {
 }
 
 func c15Compile(cs *gen.PolicyCase, be, pol string) c15Compiled {
-	src := wg.Print(cs.Prog)
+	src := c15Src(cs)
 	m, stage, err := drive.Front(src)
 	if err != nil {
 		return c15Compiled{err: fmt.Sprintf("front end rejected the program at %s (judged by C08)", stage)}
 	}
 	entry := "main"
 	wgSize := [3]uint32{1, 1, 1}
+	found := false
 	for _, ep := range m.EntryPoints {
-		if ep.Stage == ir.StageCompute {
-			entry, wgSize = ep.Name, ep.Workgroup
+		if ep.Stage == ir.StageCompute && (cs.Entry == "" || ep.Name == cs.Entry) {
+			entry, wgSize, found = ep.Name, ep.Workgroup, true
 			break
 		}
+	}
+	if !found {
+		return c15Compiled{err: "entry point " + cs.Entry + " not in the lowered module (judged by C08)"}
 	}
 	art, err := drive.CompileProtective(be, pol, m, entry)
 	if err != nil {
 		return c15Compiled{err: fmt.Sprintf("%s backend returned an error (judged by C08)", be)}
 	}
-	return c15Compiled{art: art, entry: target{Name: be}.entryName(art, entry), wgSize: wgSize}
+	emitted := target{Name: be}.entryName(art, entry)
+	if cs.Entry != "" {
+		emitted = c15EntryName(be, art, entry)
+	}
+	return c15Compiled{art: art, entry: emitted, wgSize: wgSize}
+}
+
+// c15Src is the WGSL text naga compiles (modules with several entry points print all of them).
+func c15Src(cs *gen.PolicyCase) string {
+	if cs.Source != nil {
+		return wg.Print(cs.Source)
+	}
+	return wg.Print(cs.Prog)
+}
+
+// c15EntryName finds the name a given WGSL entry point has in the emitted text (naga appends `_` to reserved words).
+func c15EntryName(be string, art []byte, name string) string {
+	var pat string
+	switch be {
+	case "msl":
+		pat = `kernel\s+void\s+(%s_*)\s*\(`
+	case "hlsl":
+		pat = `\]\s*void\s+(%s_*)\s*\(`
+	default:
+		return name
+	}
+	if m := regexp.MustCompile(fmt.Sprintf(pat, regexp.QuoteMeta(name))).FindSubmatch(art); m != nil {
+		return string(m[1])
+	}
+	return name
 }
 
 // c15Exec runs one row and returns the run record (nil + reason when the executor cannot judge).
@@ -174,11 +208,13 @@ type c15Group struct {
 }
 
 // c15PolsFor lists, per policy combination of Policy.tla, the (backend, option set) pairs that select it for a case.
-func c15PolsFor(cs *gen.PolicyCase, backends []string) map[string][][2]string {
+// spvIndexPolicies = false (quick tier, programs not shared with MSL): SPIR-V runs with its defaults only - its Index
+// option is a known no-op, the RR / ZZ evaluations are spent where MSL shares them.
+func c15PolsFor(cs *gen.PolicyCase, backends []string, spvIndexPolicies bool) map[string][][2]string {
 	res := map[string][][2]string{}
 	for _, be := range backends {
 		opts := drive.ProtectiveOpts(be)
-		if cs.Kind != "index" {
+		if cs.Kind != "index" || (be == "spv" && !spvIndexPolicies) {
 			opts = opts[:1] // operators and zero-initialisation do not depend on the index policy
 		}
 		for _, o := range opts {
@@ -282,19 +318,73 @@ func c15Validate(c *core.Ctx, groups []*c15Group) ([]c15Verdict, error) {
 	return res.Bad, nil
 }
 
-// c15Sample draws the programs of a tier: a seeded subset of the index forms, operator programs and zero-init programs.
-func c15Cases(c *core.Ctx) []*gen.PolicyCase {
+// c15TextBackends are the three text backends; in the quick tier every index program runs on SPIR-V and on ONE of them.
+var c15TextBackends = []string{"msl", "hlsl", "glsl"}
+
+// c15Cases draws the programs of a tier.  Thorough: a seeded fraction of the index forms, every operator and zero-init
+// program, all backends.  Quick: stratified - for every access shape three programs (seeded choice among its address
+// space x operation x index type combinations), one for each text backend (assign: description -> text backend), so that
+// every shape meets every backend on every seed; 24 operator programs, 10 single-entry zero-init programs and all
+// multi-entry-point zero-init programs on all four backends.
+func c15Cases(c *core.Ctx) (cases []*gen.PolicyCase, assign map[string]string) {
 	rng := rand.New(rand.NewSource(c.Seed))
-	// index forms: keep a seeded fraction, stratified by (shape, space) so that every shape and space appears
-	frac := map[bool]float64{true: 0.035, false: 0.15}[c.Quick()]
 	filter := envOr("VERIF_C15_FILTER", "") // development: exactly the programs whose description contains the text
-	keep := func(desc string) bool {
-		if filter != "" {
-			return strings.Contains(desc, filter)
+	var idx []gen.PolicyCase
+	switch {
+	case filter != "":
+		idx = gen.PolicyIndexCases(rng, func(desc string) bool { return strings.Contains(desc, filter) })
+	case !c.Quick() || envOr("VERIF_C15_BACKENDS", "") != "":
+		frac := map[bool]float64{true: 0.035, false: 0.15}[c.Quick()]
+		idx = gen.PolicyIndexCases(rng, func(desc string) bool {
+			return rand.New(rand.NewSource(c.Seed*7919+int64(hashStr(desc)))).Float64() < frac
+		})
+	default:
+		assign = map[string]string{}
+		var shapes []string
+		byShape := map[string][]gen.IndexDesc{}
+		for _, d := range gen.PolicyIndexDescs() {
+			if _, ok := byShape[d.Shape]; !ok {
+				shapes = append(shapes, d.Shape)
+			}
+			byShape[d.Shape] = append(byShape[d.Shape], d)
 		}
-		return rand.New(rand.NewSource(c.Seed*7919+int64(hashStr(desc)))).Float64() < frac
+		key := func(d gen.IndexDesc) uint32 { return hashStr(fmt.Sprintf("%d/%s", c.Seed, d.Desc)) }
+		for _, sh := range shapes {
+			cands := byShape[sh]
+			sort.Slice(cands, func(i, j int) bool { return key(cands[i]) < key(cands[j]) })
+			used := map[string]bool{}
+			for _, be := range c15TextBackends {
+				tries := 0
+				for _, d := range cands {
+					if used[d.Desc] || tries >= 12 {
+						continue
+					}
+					// a program the generator does not build, the backend rejects or the executor cannot run is no use here
+					pcs := gen.PolicyIndexCases(rng, func(desc string) bool { return desc == d.Desc })
+					if len(pcs) != 1 {
+						continue
+					}
+					tries++
+					pol := drive.ProtectiveOpts(be)[0]
+					cc := c15Compile(&pcs[0], be, pol)
+					if cc.err != "" {
+						continue
+					}
+					row := 0
+					for pcs[0].OOB[row] && row+1 < len(pcs[0].OOB) {
+						row++
+					}
+					if r, _ := c15Exec(&pcs[0], row, be, pol, cc); r == nil || r.trap != "" {
+						continue
+					}
+					used[d.Desc] = true
+					assign[d.Desc] = be
+					idx = append(idx, pcs[0])
+					break
+				}
+			}
+		}
 	}
-	idx := gen.PolicyIndexCases(rng, keep)
 	ops := gen.PolicyOpCases(rng, c.Pick(10, 40))
 	if c.Quick() && filter == "" {
 		rng.Shuffle(len(ops), func(i, j int) { ops[i], ops[j] = ops[j], ops[i] })
@@ -302,16 +392,24 @@ func c15Cases(c *core.Ctx) []*gen.PolicyCase {
 	}
 	un := gen.PolicyUninitCases()
 	if c.Quick() && filter == "" {
-		rng.Shuffle(len(un), func(i, j int) { un[i], un[j] = un[j], un[i] })
-		un = un[:10]
+		// every multi-entry-point program, 10 of the others
+		var multi, single []gen.PolicyCase
+		for _, u := range un {
+			if u.Entry != "" {
+				multi = append(multi, u)
+			} else {
+				single = append(single, u)
+			}
+		}
+		rng.Shuffle(len(single), func(i, j int) { single[i], single[j] = single[j], single[i] })
+		un = append(single[:10], multi...)
 	}
-	var out []*gen.PolicyCase
 	for _, l := range [][]gen.PolicyCase{idx, ops, un} {
 		for i := range l {
-			out = append(out, &l[i])
+			cases = append(cases, &l[i])
 		}
 	}
-	return out
+	return cases, assign
 }
 
 func hashStr(s string) uint32 {
@@ -324,7 +422,7 @@ func hashStr(s string) uint32 {
 
 func runC15(tier, replay string) int {
 	c := core.NewCtx("C15", tier, "translation_validation")
-	c.Cov["rule"] = "Policy family: every access form (array / vector / matrix column / matrix element / nested chains through struct-array-matrix-vector / through ptr parameters and let-bound pointers / value indexing / stores / compound assignment / ++ / atomics / run-time sized arrays with arrayLength) x address space (storage rw / storage read / uniform / workgroup / private / function) x index type (i32, u32) with index operands loaded from a buffer holding {0, len-1, len, len+1, -1, INT_MAX, INT_MIN, 2^28, 2^30, 2^29+1, len+60}; the hardened-operator grid (/ % << >> + - * /= %= neg abs i32(f32) u32(f32) dot extractBits insertBits, scalar and vector, on hostile operands); workgroup / private / function variables read before any write. Each program is compiled by the real naga with the backend's protective option sets, executed by the trapping executor of the target language with access tracing, and the execution (accesses, trap, final words) is validated event by event by TLC against spec/Policy.tla (rules R1 AccessInBuffer, R2 AccessInObject, R3 NoSkippedWrite, R4 NoTrap, R5 ResultWords). A case = (program, input row, backend, option set); non-trivial if it executed to a verdict; distinct by (backend, option set, program, row)."
+	c.Cov["rule"] = "Policy family: every access form (array / vector / matrix column / matrix element / nested chains through struct-array-matrix-vector / through ptr parameters and let-bound pointers / value indexing / stores / compound assignment / ++ / atomics / run-time sized arrays with arrayLength / one index value at two levels of different extent) x address space (storage rw / storage read / uniform / workgroup / private / function) x index type (i32, u32) with index operands loaded from a buffer holding {0, len-1, len, len+1, -1, INT_MAX, INT_MIN, 2^28, 2^30, 2^29+1, len+60}; the hardened-operator grid (/ % << >> + - * /= %= neg abs i32(f32) u32(f32) dot extractBits insertBits, scalar and vector, on hostile operands); workgroup / private / function variables read before any write, also in modules with several entry points that reach the variable through helper chains (every entry point executed). Each program is compiled by the real naga with the backend's protective option sets, executed by the trapping executor of the target language with access tracing, and the execution (accesses, trap, final words) is validated event by event by TLC against spec/Policy.tla (rules R1 AccessInBuffer, R2 AccessInObject, R3 NoSkippedWrite, R4 NoTrap, R5 ResultWords). A case = (program, input row, backend, option set); non-trivial if it executed to a verdict; distinct by (backend, option set, program, row)."
 	c.Assumef("WGSL hardened semantics and bounds-check policies as transcribed in spec/Policy.tla and spec/WgslSem.tla (Word32.tla, F32.tla self-tested against native arithmetic)")
 	c.Assumef("the executors (harness/spv, glslx, hlslx, mslx) trap on every operation the target language leaves undefined (harness/docs/EXECUTORS.md)")
 	// self-tests of the value layer and of Policy.tla's rules (Faults), side by side
@@ -349,14 +447,18 @@ func runC15(tier, replay string) int {
 	c.Cov["word32_selftest_rows"], c.Cov["f32_selftest_rows"] = stN[0], stN[1]
 
 	backends := []string{"spv", "hlsl", "msl", "glsl"}
-	if c.Quick() {
-		backends = []string{"spv", []string{"msl", "hlsl", "glsl"}[int(c.Seed)%3]}
-	}
 	if b := strings.TrimSpace(envOr("VERIF_C15_BACKENDS", "")); b != "" {
 		backends = strings.Split(b, ",")
 	}
 	c.Cov["backends"] = backends
-	cases := c15Cases(c)
+	cases, assign := c15Cases(c)
+	if assign != nil {
+		per := map[string]int{}
+		for _, be := range assign {
+			per[be]++
+		}
+		c.Cov["quick_index_programs_per_text_backend"] = per
+	}
 	if f := envOr("VERIF_C15_FILTER", ""); f != "" {
 		var cs2 []*gen.PolicyCase
 		for _, cs := range cases {
@@ -375,7 +477,11 @@ func runC15(tier, replay string) int {
 	}
 	var jobs []job
 	for _, cs := range cases {
-		for pol, bos := range c15PolsFor(cs, backends) {
+		bes, spvPol := backends, true
+		if text, ok := assign[cs.Desc]; ok && cs.Kind == "index" {
+			bes, spvPol = []string{"spv", text}, text == "msl"
+		}
+		for pol, bos := range c15PolsFor(cs, bes, spvPol) {
 			for _, bo := range bos {
 				jobs = append(jobs, job{cs, bo[0], pol})
 			}
@@ -523,7 +629,7 @@ func runC15(tier, replay string) int {
 	}
 	for i := 0; i < len(runs) && i < 6; i++ {
 		r := runs[(i*7919)%len(runs)]
-		c.Sample(map[string]any{"desc": r.cs.Desc, "backend": r.be, "opt": r.pol, "rowclass": r.cs.RowClass[r.row], "wgsl": wg.Print(r.cs.Prog),
+		c.Sample(map[string]any{"desc": r.cs.Desc, "backend": r.be, "opt": r.pol, "rowclass": r.cs.RowClass[r.row], "wgsl": c15Src(r.cs),
 			"input": r.cs.Inputs[r.row], "accesses": len(r.acc), "trap": r.trap})
 	}
 	return c.Finish()
@@ -560,7 +666,7 @@ func c15Report(c *core.Ctx, r *c15Run, v c15Verdict) {
 	default:
 		what = fmt.Sprintf("%s/%s: %s [%s]: %s violated by the access trace %v", r.be, r.pol, r.cs.Desc, r.cs.RowClass[r.row], v.Rule, c15BriefAcc(r.acc))
 	}
-	c.Report(what, desc, map[string]any{"wgsl": wg.Print(r.cs.Prog), "input": r.cs.Inputs[r.row], "backend": r.be, "options": r.pol,
+	c.Report(what, desc, map[string]any{"wgsl": c15Src(r.cs), "input": r.cs.Inputs[r.row], "backend": r.be, "options": r.pol,
 		"emitted": emittedText(target{Name: r.be}, r.art), "trap": r.trap, "accesses": r.acc, "observed": r.words, "expected": v.Exp, "mask": v.Mask, "rule": v.Rule})
 }
 
